@@ -79,6 +79,24 @@ CLAIMS.update({
         design='§6 C07'),
 })
 
+CLAIMS.update({
+    'C01': dict(
+        text='Lean 4 theorems that the modelled outcome of every public operation is never `panic`: classification of any code point (the comparison behind every table search never answers None), allows for ANY class, each of the nine context rules at ANY usize position, all profile rules (the slice positions returned by find are always character boundaries: corollaries of the functional-correctness theorems C10-C12), prepare/enforce/compare of the four profiles, stabilize for any non-panicking rule. Only hypothesis: a label has fewer than 2^63 code points. The model produces `panic` exactly where the Rust text can (slicing, usize +-1 overflow, unwrap, indexing). Correspondence: every operation under catch_unwind on all strings <= 3 (thorough 5) over 12 byte-length/space/contextual/cased/wide/RTL representatives, nickname space patterns two characters longer, every rule at offsets up to usize::MAX, both classes at every code point; an implementation PANIC is by itself a failing input.',
+        note='Partial by nature: allocation failure, stack exhaustion, panics inside std/unicode-normalization are outside the model (observed only under catch_unwind). Trusted: Lean kernel; placement of `panic` outcomes in the hand-written model.',
+        technique='Lean 4 proof (corollaries of functional-correctness theorems; overflow guards by case analysis) + catch_unwind differential enumeration of byte-length x position combinations',
+        design='§6 C01'),
+    'C08': dict(
+        text='Lean 4 theorems: (1) no code point of an accepted enforce result is DISALLOWED/UNASSIGNED in the profile\'s own class — full strength for Nickname, OpaqueString, UsernameCasePreserved; for UsernameCaseMapped on inputs without a character whose lowercase image is forbidden, where that exceptional set is COMPUTED by the kernel from the regenerated tables (exactly the 85 Cherokee letters U+13A0..U+13F4: known finding cherokee-lowercase). Proof: a generic closure lemma for the NFC model (decompose, reorder, recompose incl. Hangul) over any set closed under the decomposition and composition tables, plus kernel-checked closure facts over bitmaps of the forbidden sets (re-checked whenever std/unicode-normalization/tables change). (2) never drifts: full strength for Nickname (fixed point); for the other profiles it additionally needs idempotence of the external normalizer and is checked, not proved. Correspondence: EXHAUSTIVE native sweep of every scalar as a one-character input through all four profiles with re-classification and re-enforcement, plus thousands of decomposed/composing/cased sequences.',
+        note='Partial: drift for usernames/passwords is exploration-level (assumes NFC idempotence of the external crate). Known finding: Cherokee lowercase images are UNASSIGNED in the 6.3.0 tables.',
+        technique='Lean 4 proof (closure of the NFC model by induction over its state machine + kernel bitmap facts) + exhaustive single-code-point sweep',
+        design='§6 C08'),
+    'C17': dict(
+        text='Lean 4 theorems about a model of the registry CSV parser (splitn, the two anchored regexes, from_str_radix, the line iterator): every well-formed row rendered with 1-8 upper-case hex digits, any of the 7 names or 49 ordered pairs and ANY description (commas included) parses to exactly that row (completeness); anything accepted has exactly that form — hex digits only (no sign), value <= U+10FFFF, one of the names or two joined by white space-or-white space, description verbatim (soundness); fewer than two commas is an error; the header is skipped, items are in file order and an error carries its 1-based line number. Correspondence: rendered random rows and EVERY single-character deletion/replacement/insertion of seed rows through PrecisDerivedProperty::from_str, generated files through CsvLineParser::from_path.',
+        note='Trusted: Lean kernel; regex crate, from_str_radix, ucd_parse::Codepoint, read_line modelled by their documented behaviour (validated by the correspondence).',
+        technique='Lean 4 proof (round-trip and soundness by induction on digit strings / list splitting) + exhaustive single-edit corruption correspondence',
+        design='§6 C17'),
+})
+
 NOT_YET = {}
 
 
